@@ -1462,6 +1462,16 @@ def parse_unittest(test):
     return testSuite, testName, testClassName
 
 
+_illegal_xml_chars = re.compile(
+    '[^\t\n\r\x20-\ud7ff\ue000-\ufffd\U00010000-\U0010ffff]')
+
+
+def xml_safe(text):
+    """Replace the characters that are not allowed in an XML document."""
+    return _illegal_xml_chars.sub(
+        lambda match: '\\x%02x' % ord(match.group()), text)
+
+
 class XMLOutputFormattingWrapper:
     """Output formatter which delegates to another formatter for all
     operations, but also prepares an element tree of test output.
@@ -1615,6 +1625,14 @@ class XMLOutputFormattingWrapper:
             testSuiteNode.append(systemOutNode)
             systemErrNode = ElementTree.Element('system-err')
             testSuiteNode.append(systemErrNode)
+
+            # Test names, exception messages and tracebacks may contain
+            # characters that XML cannot represent at all.
+            for node in testSuiteNode.iter():
+                for k, v in node.attrib.items():
+                    node.set(k, xml_safe(v))
+                if node.text:
+                    node.text = xml_safe(node.text)
 
             # indent the XML structure
             with suppress(AttributeError):
